@@ -22,7 +22,7 @@ CONSTANTS
   InsSet <- InsSmall
   MinEdits = 0
   Randomised = FALSE
-  DumpMod = 5
+  DumpMod = 15
   NRepl = 17
   RichOnly = TRUE
   NeedStruct = FALSE
